@@ -259,4 +259,15 @@ theorem runLog_finOk (log : List Ev) : ∀ (p p' : PSt), FinOk p → runLog pste
     | none => simp [hs] at h
     | some p1 => simp only [hs] at h; exact ih p1 p' (finOk_step p p1 e hf hs) h
 
+/-- a state in which the lock is free and every thread is finished or parked without a token
+    accepts no event: it ends a maximal run -/
+theorem pstuck_of_rest (p : PSt) (hl : p.s.lock = none)
+    (h : ∀ t, t < p.s.n → p.s.pc t = .fin ∨ (p.s.pc t = .susp false ∧ p.s.tok t = 0)) : PStuck p := by
+  intro e
+  cases e <;> simp only [pstep, step] <;> (repeat' split) <;>
+    first
+    | rfl
+    | (simp_all; done)
+    | grind
+
 end PikaVerif.Sem
